@@ -1,4 +1,4 @@
 From Coq Require Import Extraction ExtrOcamlBasic NArith.
 From Glb Require Import Check.TaskLane.
 (* N.succ only brings the datatypes [positive] and [N] into model.ml: the shared prelude mentions their constructors *)
-Extraction "model.ml" check_history run_monitors monitors_ok accept_history accept_history_plain verdict_ok default_fuel N.succ.
+Extraction "model.ml" check_history check_history_lax run_monitors monitors_ok monitors_ok_lax verdict_ok_lax accept_history accept_history_plain verdict_ok default_fuel N.succ.
